@@ -26,10 +26,16 @@ ASSUMPTIONS = [
     'state of those nodes only (A3); `store = aggregates[key]` is defaultdict.__missing__ with create() inlined (A4) and '
     'the list it yields is reachable only through `store` and the dict entry until the end of the block, where it is '
     'written back; aggregates and key are not rebound in between (A5, checked syntactically)',
-    'C02_source_scan_loop: operands, WHERE and grouping targets are opaque callables whose values are not exceptions (C04); '
-    'the values of a min/max argument column are pairwise comparable (same kind); handle = position in c_aggregate_exprs '
-    '(what the translated allocate loop assigns; the allocate loop, the target split and the output loop are translated '
-    'and re-generated but not yet tied by a theorem)',
+    'C02_source_scan_loop / _agg_branch: operands, WHERE and grouping targets are opaque callables whose values are not '
+    'exceptions (C04) and do not depend on the state of the aggregate nodes; the values of a min/max argument column are '
+    'pairwise comparable (same kind); compiler.get_columns_and_aggregates is an opaque callable returning (columns, the '
+    'aggregate nodes below the target in hunting order), and those nodes, concatenated over the non-grouped targets, are '
+    'the aggregates of the model query in handle order (C02_source_allocate_loop proves handle = position)',
+    'C02_source_output_loop / _agg_branch: a non-grouped target is an opaque callable of (context, aggregate nodes) that, '
+    'with the finalised value slots[h] parked on node h, returns Eval.eval ctx slots e (EvalAggregator.__call__ = EAgg h: '
+    'C02_source_finalize_call) whenever that is not an exception; no cell of an output row is an exception value (C04); '
+    'having_index lies inside the target list; StopIteration of next() is modelled as the IndexError of pop(0) (never '
+    'raised: every key has one cell per grouped target, proved for the store the scan builds)',
 ]
 IMPORTS = ['Base.PyValue', 'Base.Decimal', 'Model.Eval', 'Model.Order', 'Model.Exec']
 
